@@ -85,6 +85,12 @@ _X: t.Dict[str, t.Any] = {}
 
 
 def _work(job: t.Tuple[t.Any, ...]) -> evid.Local:
+    # a library call that never returns is reported (CallDoesNotReturn), it does not hang the check
+    with K.watchdog():
+        return _work_cases(job)
+
+
+def _work_cases(job: t.Tuple[t.Any, ...]) -> evid.Local:
     loc = evid.Local()
     fam = job[0]
 
